@@ -160,6 +160,10 @@ class BaseCircuitRunner(ABC, CircuitRunner):
             dedicated way of running circuits' batch, `_run_batch_and_measure`
             method.
         """
+        if isinstance(n_samples, int) and n_samples <= 0:
+            raise ValueError(
+                f"All numbers of samples have to be positive. Got: {n_samples}"
+            )
         samples_per_circuit = (
             len(circuits_batch) * [n_samples]
             if isinstance(n_samples, int)
